@@ -130,6 +130,29 @@ def run_case(prop, case):
     if prop == "C10":
         ref = Driver(name, case["budget"], case["w"], case["sseed"])
         g_ref, log_ref = run_stream(ref, X, U, chunking("one", case["n"], 0))
+        if name in STRATEGIES:
+            # the same stream, one instance at a time, (a) handed over in ONE buffer that the caller refills for every instance and (b) as nested
+            # lists: what the strategy does must not depend on where the caller keeps the instances / on the container type query accepts
+            for variant in ("reused_buffer", "nested_lists"):
+                d2 = Driver(name, case["budget"], case["w"], case["sseed"])
+                buf = np.empty((1, X.shape[1]))
+                g2 = []
+                try:
+                    for i in range(case["n"]):
+                        if variant == "reused_buffer":
+                            buf[0] = X[i]
+                            cand_i = buf
+                        else:
+                            cand_i = X[i:i + 1].tolist()
+                        q_i, ut_i = d2.query(cand_i, U[i:i + 1])
+                        d2.update(cand_i, q_i, ut_i)
+                        g2 += [i for _ in q_i]
+                except Exception as e:
+                    fail(f"C10.update_or_query_raised.{variant}", f"{type(e).__name__}: {str(e)[:120]}")
+                    continue
+                if g2 != g_ref:
+                    diff = sorted(set(g2) ^ set(g_ref))[:5]
+                    fail(f"C10.decisions_depend_on_the_callers_container.{variant}", f"granted differs from the run on fresh arrays at instances {diff}")
         for ck in (5, "random", "whole"):
             d = Driver(name, case["budget"], case["w"], case["sseed"])
             chunks = chunking(ck, case["n"], case["sseed"])
